@@ -68,7 +68,7 @@ Definition check_C05 (c : tsp_case) : Z := check_trace (E:=TSP) (c_inst c) 1 (cu
 Definition verdict_codes (i : tsp_inst) (acts : list nat) (verdict : bool) : Z :=
   if tsp_feasibleb i acts && negb verdict then 14
   else if negb (tsp_feasibleb i acts) && verdict then 15
-  else if negb (Bool.eqb (tsp_checker acts) verdict) then 13
+  else if negb (Bool.eqb (tsp_checker i acts) verdict) then 13
   else 0.
 Definition check_C06 (c : tsp_case) : Z :=
   if negb (c_complete c) then 0 else verdict_codes (c_inst c) (trace_actions (c_trace c)) (c_checker c).
